@@ -155,6 +155,21 @@ def run(ctx):
             es.append(e)
             k += 1
             ctx.dist("tagged-operands")
+    # plus / star of operands that already have an epsilon arc from a final state back to an initial state
+    k = 0
+    while k < n // 4:
+        lf = leaf(None)
+        m = lf["m"]
+        if not m["init"] or not m["final"]:
+            continue
+        m["arcs"].append([ctx.rng.choice(m["final"])[0], None, ctx.rng.choice(m["init"])[0], "1/3"])
+        e = scale({"op": ctx.rng.choice(["plus", "star"]), "a": lf}, Fraction(1, 2))
+        if ctx.rng.random() < 0.4:
+            e = {"op": ctx.rng.choice(["plus", "star"]), "a": e}
+        if mass(e) is not None:
+            es.append(e)
+            k += 1
+            ctx.dist("plus-over-back-arc")
     tab = WTable(ctx, "expr")
     strs = [list(x) for x in F.strings(nT, 3)]
     for i, e in enumerate(es):
